@@ -13,7 +13,41 @@ import lexgen, fuzzgen
 PID = "C19"
 import time
 T0 = time.time()
-TRIVIA = [b" ", b"\n", b"\t", b"  \n\t ", b"\r\n", b" /* c */ ", b" /* multi\n line \" ' // */ ", b" // c\n", b" /**/ ", b"\n// x \"q\" 'z' /* \n", b"\n\n\n", b" /* * / ** */\t"]
+TRIVIA = [b" ", b"\n", b"\t", b"  \n\t ", b"\r\n", b" /* c */ ", b" /* multi\n line \" ' // */ ", b" // c\n", b" /**/ ", b"\n// x \"q\" 'z' /* \n", b"\n\n\n", b" /* * / ** */\t",
+          b" /* a\tb */ ", b"/*\t*/", b" /* x\n\ty\t*/ ", b" // t\tu\n", b"\t/* \t */\t"]
+# trivia with non-ASCII text (outside the Lean model's domain; positions are checked against the column rule re-stated in Python)
+TRIVIA_U = [" /* caf\u00e9 \u2192 */ ".encode(), " /* \u65e5\u672c\n \u00e9 */ ".encode(), " // \u00fc\u00f1\n".encode(), "/*\u00e9\t\u00e9*/".encode()]
+
+
+def advance_spec(pos, chunk):
+    """positions.go Position.Advance re-stated: per chunk, rune by rune; LF -> next line, column 1; tab -> +4 columns; any other rune -> +1
+    column unless it directly follows a tab inside the same chunk; the index counts bytes"""
+    line, col, idx = pos
+    prev_tab = False
+    for ch in chunk.decode("utf-8", "surrogateescape"):
+        nb = len(ch.encode("utf-8", "surrogateescape"))
+        if ch == "\n": line, col, prev_tab = line + 1, 1, False
+        elif ch == "\t": col, prev_tab = col + 4, True
+        else:
+            if not prev_tab: col += 1
+            prev_tab = False
+        idx += nb
+    return (line, col, idx)
+
+
+def positions_ok(text, toks):
+    """every token must start/stop where the column rule puts it, given the lexer's own chunks (tokens and the gaps between them)"""
+    pos = (1, 1, 0)
+    for k, v, a, b in toks:
+        if k == "end_of_file": break
+        # the gap before the token is consumed as white-space chunk(s): one chunk per maximal run (the lexer's `\\s+`)
+        if a[2] > pos[2]:
+            pos = advance_spec(pos, text[pos[2]:a[2]])
+        if tuple(a) != pos: return "token %r starts at %s, the text puts it at %s" % (v[:20], a, pos)
+        pos = advance_spec(pos, text[a[2]:b[2]])
+        if tuple(b) != pos: return "token %r ends at %s, the text puts it at %s" % (v[:20], b, pos)
+    return None
+
 EXTERN = b"\n// @extern\n"
 
 
@@ -120,16 +154,24 @@ def main():
         nsig = len(sig(toks))
         for pl in plans(rng, nsig, 6 if tier == "quick" else 20):
             texts.append(insert(b, toks, pl)); metas.append((b, toks, pl))
+        for _ in range(2 if tier == "quick" else 6):           # non-ASCII trivia: real lexer only
+            pl = {rng.below(nsig): rng.choice(TRIVIA_U) for _ in range(1 + rng.below(3))}
+            texts.append(insert(b, toks, pl)); metas.append((b, toks, pl))
     lv = lex_real(hook, texts)
-    model = run_driver(["lex"], "".join((t.hex() if t else "-") + "\n" for t in texts)).split("\n")
+    model = run_driver(["lex"], "".join((t.hex() if t and all(c < 128 for c in t) else "-") + "\n" for t in texts)).split("\n")
     golines = run([hook, "lex"], input="".join((t.hex() if t else "-") + "\n" for t in texts), timeout=900).stdout.split("\n")
     lexdiff = 0
     for (b, toks, pl), t, r, ml, gl in zip(metas, texts, lv, model, golines):
         lex_cases += 1
-        if ml != gl: lexdiff += 1
+        if all(c < 128 for c in t) and ml != gl: lexdiff += 1
         if r is None or sig(r[0]) != sig(toks) or r[1] != 0:
             rep.fail("lexgap:" + hashlib.sha1(t).hexdigest()[:12], "inserting trivia before tokens changes the token stream: %r -> %r" % (b[:60], t[:80]),
                      {"kind": "input", "base_hex": b.hex(), "variant_hex": t.hex(), "plan": {str(k): v.decode("latin1") for k, v in pl.items()}, "cmd": "gohook lex"})
+            continue
+        pe = positions_ok(t, r[0])
+        if pe:
+            rep.fail("lexpos:" + hashlib.sha1(t).hexdigest()[:12], "position of a token of the reformatted text does not follow the text: " + pe,
+                     {"kind": "input", "variant_hex": t.hex(), "cmd": "gohook lex", "detail": pe})
             continue
         # positions follow the text: every significant token starts where the text says (line = 1 + #LF before it)
         for (k, v, a, bb) in r[0]:
